@@ -202,6 +202,7 @@ type xblWorld struct {
 	dkgTasks  map[uint64]*xblTask // goroutines running ExecuteDKG
 	signTasks map[uint64]*xblTask // goroutines running SignAndSubmit
 	pubs    map[string]map[int]*bn256.G2
+	confirm map[uint64]int // goroutine running a relay-requested handler -> request
 	nextSub int
 
 	resultSubs map[int]*xblSubResult
@@ -265,7 +266,7 @@ func xblNewWorld(t *testing.T, name string, n, h int, seats []string) *xblWorld 
 	w := &xblWorld{t: t, name: name, base: base, bc: bc, cfg: base.GetConfig(), n: n, h: h, seats: seats,
 		nodes: map[string]*xblNode{}, groups: map[string]uint64{}, stale: map[string]bool{},
 		keyIDs: map[string]string{}, compr: map[string]string{}, hashes: map[beaconchain.DKGResultHash]xblRes{},
-		tasks: map[uint64]int{}, dkgTasks: map[uint64]*xblTask{}, signTasks: map[uint64]*xblTask{}, pubs: map[string]map[int]*bn256.G2{},
+		confirm: map[uint64]int{}, tasks: map[uint64]int{}, dkgTasks: map[uint64]*xblTask{}, signTasks: map[uint64]*xblTask{}, pubs: map[string]map[int]*bn256.G2{},
 		resultSubs: map[int]*xblSubResult{}, entrySubs: map[int]*xblSubEntry{}}
 	seen := map[string]bool{}
 	for _, s := range seats {
@@ -469,6 +470,10 @@ func (w *xblWorld) deliverRelayRequested(q *xblReq, node string, copies int) {
 			go func(h func(*event.RelayEntryRequested)) {
 				defer wg.Done()
 				// the handler confirms the request with the chain and returns
+				gid, _, _ := xblWho()
+				w.mu.Lock()
+				w.confirm[gid] = q.id
+				w.mu.Unlock()
 				h(&event.RelayEntryRequested{PreviousEntry: q.prev, GroupPublicKey: q.key, BlockNumber: q.start})
 			}(h)
 		}
@@ -774,7 +779,7 @@ func (c *xblChain) IsEntryInProgress() (bool, error) {
 }
 
 func (c *xblChain) CurrentRequestStartBlock() (*big.Int, error) {
-	_, _, st := xblWho()
+	gid, _, st := xblWho()
 	w := c.w
 	w.mu.Lock()
 	defer w.mu.Unlock()
@@ -787,6 +792,8 @@ func (c *xblChain) CurrentRequestStartBlock() (*big.Int, error) {
 	}
 	if strings.Contains(st, "NotifyRelayEntryStarted") {
 		w.emitLocked(xblEv{"event": "DedupConsult", "node": c.inc.node.name, "inc": c.inc.id, "start": v})
+	} else if strings.Contains(st, "confirmCurrentRelayRequest") {
+		w.emitLocked(xblEv{"event": "RelayConfirm", "node": c.inc.node.name, "inc": c.inc.id, "req": w.confirm[gid], "current": v})
 	}
 	return new(big.Int).SetUint64(v), nil
 }
